@@ -372,6 +372,7 @@ func bytesCase(c *CaseCtx, salt int64) *ContCase {
 	cc.Prof.Composite = true
 	cc.Prof.CompositeFlip = true
 	cc.Prof.ManyTypes = c.Case%4 >= 2
+	cc.Prof.LongTypes = c.Case%3 == 1
 	cc.Prof.PContainer = 35
 	cc.Prof.PSome = 20
 	cc.Prof.MaxDepth = 3
